@@ -57,6 +57,10 @@ func init() {
 				ec.Balances[d] = map[string]string{"USD": fmt.Sprint(1 + gen.Uniform(t, "destbalv", 30))}
 			}
 		}
+		// account and asset names whose concatenations coincide ("acc"+"ABC" = "accA"+"BC")
+		if gen.Chance(t, "c10.colliding", 12) {
+			ec.Rename(gen.CollidingNames(0))
+		}
 		return ec
 	}
 }
